@@ -110,8 +110,12 @@ def normal_form(name, params, vin, vout, obj=None):
     tol = CL.D("1e-9")
     if len(set(vin)) == 1 and name in ("MinMaxScaler", "StandarScaler", "CenitDistanceMatrixScaler"):
         return None   # degenerate (constant) vector: outside the property's quantifier
-    if name == "SumScaler" and abs(sum(o) - 1) > tol:
-        return f"sums to {sum(o)}"
+    if name == "SumScaler":
+        # a sum of mixed-sign terms is only as accurate as its condition number allows
+        si = sum(i)
+        cond = (sum(abs(x) for x in i) / abs(si)) if si != 0 else CL.D(1)
+        if abs(sum(o) - 1) > tol * max(CL.D(1), cond):
+            return f"sums to {sum(o)}"
     if name == "VectorScaler" and abs(sum(x * x for x in o) - 1) > tol:
         return f"squared norm {sum(x * x for x in o)}"
     if name in ("MaxAbsScaler", "MaxScaler") and abs(max(abs(x) for x in o) - 1) > tol:
